@@ -471,6 +471,111 @@ def found_tests(g, var):
     return out
 
 
+def dict_contents_at(g, node, var, scenario, limit=4000):
+    """possible contents {key: value text} of the local dict *var* when control reaches *node*, for the truth assignment
+    *scenario* (atom text of lib.atom_key -> bool; tests over other atoms are explored both ways).  Understood writes:
+    `var = {...}` / `var = dict(k=v, ...)`, `var[k] = v`, `var.update({...})`, `var.setdefault(k, v)`, `del var[k]` / `var.pop(k)`.
+    Returns a list of dicts (one per distinct outcome) or None when a write to var is not understood."""
+    outs = []
+    seen = set()
+    bad = [False]
+
+    def apply(n, d):
+        a = n.ast
+        if n.kind != 'stmt' or a is None:
+            return d
+        if isinstance(a, ast.Assign):
+            for tg in a.targets:
+                if isinstance(tg, ast.Name) and tg.id == var:
+                    v = a.value
+                    if isinstance(v, ast.Dict) and all(isinstance(k_, ast.Constant) for k_ in v.keys):
+                        return dict((k_.value, norm(x)) for k_, x in zip(v.keys, v.values))
+                    if isinstance(v, ast.Call) and isinstance(v.func, ast.Name) and v.func.id == 'dict' and not v.args and all(k_.arg for k_ in v.keywords):
+                        return dict((k_.arg, norm(k_.value)) for k_ in v.keywords)
+                    bad[0] = True
+                    return d
+                if isinstance(tg, ast.Subscript) and is_name(tg.value, var):
+                    if isinstance(tg.slice, ast.Constant):
+                        d = dict(d)
+                        d[tg.slice.value] = norm(a.value)
+                        return d
+                    bad[0] = True
+        elif isinstance(a, ast.Expr) and isinstance(a.value, ast.Call) and isinstance(a.value.func, ast.Attribute) and is_name(a.value.func.value, var):
+            k = a.value
+            m = k.func.attr
+            if m == 'update' and len(k.args) == 1 and isinstance(k.args[0], ast.Dict) and all(isinstance(x, ast.Constant) for x in k.args[0].keys):
+                d = dict(d)
+                for kk, vv in zip(k.args[0].keys, k.args[0].values):
+                    d[kk.value] = norm(vv)
+                return d
+            if m == 'update' and not k.args and all(x.arg for x in k.keywords):
+                d = dict(d)
+                for x in k.keywords:
+                    d[x.arg] = norm(x.value)
+                return d
+            if m == 'setdefault' and len(k.args) == 2 and isinstance(k.args[0], ast.Constant):
+                d = dict(d)
+                d.setdefault(k.args[0].value, norm(k.args[1]))
+                return d
+            if m == 'pop' and k.args and isinstance(k.args[0], ast.Constant):
+                d = dict(d)
+                d.pop(k.args[0].value, None)
+                return d
+            bad[0] = True
+        elif isinstance(a, ast.Delete):
+            for tg in a.targets:
+                if isinstance(tg, ast.Subscript) and is_name(tg.value, var) and isinstance(tg.slice, ast.Constant):
+                    d = dict(d)
+                    d.pop(tg.slice.value, None)
+                    return d
+        return d
+
+    def decide(test):
+        co, lab = truth(test)
+        if isinstance(co, ast.BoolOp):
+            rs = [decide(v) for v in co.values]
+            if isinstance(co.op, ast.And):
+                r = False if any(x is False for x in rs) else (True if all(x is True for x in rs) else None)
+            else:
+                r = True if any(x is True for x in rs) else (False if all(x is False for x in rs) else None)
+        else:
+            a_, v_ = atom_key(co, True)
+            r = None if a_ not in scenario else (scenario[a_] == v_)
+        if r is None:
+            return None
+        return r if lab == 'true' else not r
+    stack = [(g.entry, ())]
+    steps = 0
+    while stack:
+        n, items = stack.pop()
+        steps += 1
+        if steps > limit:
+            return None
+        key = (n.id, items)
+        if key in seen:
+            continue
+        seen.add(key)
+        d = dict(items)
+        if n is node:
+            if d not in outs:
+                outs.append(d)
+            continue
+        d = apply(n, d)
+        it2 = tuple(sorted(d.items(), key=lambda kv: str(kv[0])))
+        labs = None
+        if n.kind == 'test' and n.ast is not None:
+            r = decide(n.ast)
+            if r is not None:
+                labs = ('true',) if r else ('false',)
+        for s_, l_ in n.succ:
+            if l_ in ('exc', 'raise'):
+                continue
+            if labs is not None and l_ in ('true', 'false') and l_ not in labs:
+                continue
+            stack.append((s_, it2))
+    return None if bad[0] else outs
+
+
 def other(label):
     return 'false' if label == 'true' else 'true'
 
